@@ -123,6 +123,28 @@ CHECKS: dict[str, dict] = {
         technique="TLC-enumerated marking scripts bound to real files + TLC trace acceptance",
         ref="5-C17",
     ),
+    "C03": dict(
+        engine="spec/Mutations.tla, spec/CheckNaming.tla, spec/MeasureTrace.tla, spec/Program.tla",
+        text="Mutations.tla makes the environment's choice of file content an explicit action: TLC enumerates the mutation graph over canonical base programs "
+             "(every token prefix / suffix, character cuts, single line and token deletions, duplications and swaps, token soups over each language's lexical "
+             "alphabet, deep nesting, non-UTF-8 bytes; chains of two in the thorough tier) and vf/mutate.py binds it to concrete texts of the 7 languages; "
+             "CheckNaming.tla enumerates argument form x working directory x --quiet. Every input is analysed by the real scan_file under a watchdog, nasty "
+             "files are scanned as a tree by scan_command and checked by check_command under every naming; MeasureTrace.tla has actions only for normal "
+             "returns, so an exception, a time-out or an exit status other than 0/1 is a rejected event.",
+        note="Positions are folded onto each base by modulo; a time-out counts only if it reproduces with ten times the budget; not a proof for all byte strings. " + BASE_NOTE,
+        technique="TLC-enumerated mutation graph replayed into the code + TLC trace acceptance (normal returns only)",
+        ref="5-C03",
+    ),
+    "C05": dict(
+        engine="spec/Measure.tla, spec/MeasureTrace.tla, spec/Mutations.tla, spec/Program.tla",
+        text="Same TLC-enumerated input space as C03 plus the canonical bases and the vendored corpus; for every analysed input the harness records the table "
+             "of kept code tokens (start, end computed from the token text, identifier text), the line lengths and the measurement list, and TLC evaluates "
+             "Measure.tla clause by clause: Lines, Columns, StartsAtToken, EndsAfterToken, NameInside, LengthBounds, SourceOrderDistinctStarts; a tree of sampled "
+             "inputs is scanned through scan_path for FileTotalIsSumOfLengths.",
+        note="Token positions are taken from codelimit's own lexing (their faithfulness is C16's subject). " + BASE_NOTE,
+        technique="TLC-enumerated mutation graph replayed into the code + TLC evaluation of the well-formedness predicate on every result",
+        ref="5-C05",
+    ),
 }
 
 NOT_YET = "check not built yet in this round (see DESIGN.md section 10 for the order of work)"
